@@ -3,6 +3,7 @@ import argparse
 import faulthandler
 import importlib
 import json
+import os
 import sys
 import traceback
 
@@ -58,7 +59,7 @@ def replay_main(prop, path):
     mod = importlib.import_module(f"vf.checks.{prop.lower()}")
     with open(path) as f:
         v = json.load(f)
-    ctx = Ctx(prop, "quick", 0, replay=True)
+    ctx = Ctx(prop, v.get("tier", os.environ.get("VERIF_TIER", "quick")), 0, replay=True)
     mod.replay(ctx, v["sub"], v["recipe"])
     if ctx.violations:
         print(f"VIOLATION property={prop} replay={path}")
